@@ -48,7 +48,7 @@ func c01a(c *Ctx, r *Report, st *Staged) {
 			"a REDUCE action carries −(rule number)", "a REDUCE action's index is not the arithmetic negation of the rule number ("+why+"): the driver's ReduceFunc(−a) would select another rule")
 		info := f.Pkg.TypesInfo
 		shiftOK, ruleOK := false, false
-		pc := &pathCtx{info: info}
+		pc := pathCtxFor(f)
 		at, _ := mustConsts(c, r, clause, "LALR", "SHIFT", "REDUCE")
 		ast.Inspect(f.Decl.Body, func(n ast.Node) bool {
 			cl, ok := n.(*ast.CompositeLit)
@@ -137,6 +137,9 @@ func c01a(c *Ctx, r *Report, st *Staged) {
 			})
 			return true
 		})
+		if !okGroup && groupsByOwnSource(c, g) {
+			okGroup = true
+		}
 		r.Check(okGroup, clause, "R2 COVERAGE", g.Name+"/transitions-grouped-by-state", c.pos(g.Decl.Pos()),
 			"every transition is appended to the group of its source state, and only to it",
 			"the grouping loop does not append every transition exactly to the group of its own source state (tr.q == q)")
@@ -304,7 +307,7 @@ func gotoTopAfterReduce(sk *Skeleton) string {
 	}
 	if id, ok := unparen(se.X).(*ast.Ident); ok {
 		o := objOf(info, id)
-		if o.Pos() < reduceCall.End() {
+		if di := defIdentIn(info, d.fn.Body, o); di == nil || di.Pos() < reduceCall.End() {
 			// same variable as the first lookup: must be re-assigned after ReduceFunc
 			reassigned := false
 			ast.Inspect(d.loop.Body, func(n ast.Node) bool {
